@@ -15,8 +15,7 @@ Lemma navigate_normal_form self t d as_url : url_of_text t = Some d -> to_text d
   navigate self t as_url = Some (navigate_url self d).
 Proof.
   intros Hd Ht. unfold navigate, navigate_url. rewrite Hd.
-  destruct (is_absolute_dest d); [|reflexivity].
-  destruct as_url; [|reflexivity]. rewrite Ht, Hd. reflexivity.
+  destruct (is_absolute_dest d); reflexivity.
 Qed.
 
 Theorem navigate_text_refines_rfc b t d as_url n :
